@@ -22,10 +22,10 @@ def mc_cfg(name, front, entries, maxt, T, V, R='R_one', E='E_one', J='J_one', de
     return p
 
 
-def trace_cfg(front, dev):
-    p = os.path.join(tlc.BUILD, 'NdnPitTrace-%s-%s.cfg' % (front, dev or 'strict'))
+def trace_cfg(front, dev, max_entries=8):
+    p = os.path.join(tlc.BUILD, 'NdnPitTrace-%s-%s%s.cfg' % (front, dev or 'strict', '' if max_entries == 8 else '-%d' % max_entries))
     tlc.write_cfg(p, spec='TSpec',
-                  constants={'Front': '"%s"' % front, 'MaxEntries': 8, 'MaxT': 100000,
+                  constants={'Front': '"%s"' % front, 'MaxEntries': max_entries, 'MaxT': 100000,
                              'Templates': '<- TrNone', 'DataSet': '<- TrNone', 'Verdicts': '<- TrVerdicts',
                              'Reasons': '<- TrReasons', 'Envs': '<- TrEnvs', 'Junk': '<- TrJunk',
                              'Races': '<- Race_no', 'Defer': '<- Def_both', 'Reconn': 'TRUE', 'Dev': '<- ' + ('DevLegacy' if dev == 'legacySlowValidator' else 'NoDev')},
@@ -208,7 +208,12 @@ NAMES = [['a'], ['a', 'b'], ['a', 'b', 'c'], ['a', 'c'], ['b'], ['a', 'b', 'd']]
 ALLN = NAMES + [['a', 'P'], ['a', 'b', 'P']]
 
 
+NAME_BIAS = [0.0]      # long histories: share of Interests / packets that go to ONE name (deep table nodes)
+
+
 def pick_name(rng):
+    if NAME_BIAS[0] and rng.random() < NAME_BIAS[0]:
+        return NAMES[1]
     return rng.choice(ALLN[len(NAMES):]) if rng.random() < 0.12 else rng.choice(NAMES)
 
 
@@ -219,7 +224,7 @@ def next_timer(entries, unfinished, now):
 
 
 def random_schedule(rng, front, n_events, weights=None, junk=None, verdicts=None, envs=('bare', 'lp', 'lph', 'lpo'),
-                    max_entries=6, defer_p=0.2, race_p=0.15):
+                    max_entries=6, defer_p=0.2, race_p=0.15, lives=None, drain=12):
     """Generates stimuli on the fly while running the real code (the driver needs to know which
     validators are in flight and which timers are due). Returns the recorded trace record."""
     w = dict(Express=5, RecvData=6, ValFinish=6, Time=6, Cancel=1, Shutdown=0.2, Connect=3, RecvNack=2, RecvJunk=1, Await=3)
@@ -272,7 +277,7 @@ def random_schedule(rng, front, n_events, weights=None, junk=None, verdicts=None
                     # CanBePrefix together with an implicit digest still names one packet
                     dig = rng.choice([1, 2]) + 10 * ALLN.index(name)
                 # 400 ticks = 4000 ms: the lifetime is not given at all and the default applies
-                t = {'name': name, 'cbp': cbp, 'dig': dig, 'life': rng.choice([1, 1, 2, 3, 1, 2, 3, pitkit.DEFAULT_LIFE])}
+                t = {'name': name, 'cbp': cbp, 'dig': dig, 'life': rng.choice(lives or [1, 1, 2, 3, 1, 2, 3, pitkit.DEFAULT_LIFE])}
                 df = rng.random() < defer_p
                 if front == 'legacy' and not df and rng.random() < 0.08:
                     t['life'] = 0          # times out in the instant it is expressed (NdnPit!ExpressNow)
@@ -342,7 +347,7 @@ def random_schedule(rng, front, n_events, weights=None, junk=None, verdicts=None
             elif a in ('Shutdown', 'Connect'):
                 emit({'a': a})
         # drain: resolve validators, pass every deadline; everything must have finished
-        for _ in range(12):
+        for _ in range(drain):
             now = run.tick()
             unfinished = [i for i, t in enumerate(run.tasks) if t is not None and not t.done()]
             pend_val = [(i + 1) for i in range(len(run.vfut)) if any(not f.done() for f in run.vfut[i])]
@@ -378,4 +383,28 @@ def stage_c(ctx, front, n, n_events, devs=(), report_devs=True, **kw):
     ctx.traces += len(recs)
     ctx.evaluations += len(recs)
     judge.judge(ctx, 'NdnPitTrace', lambda dev: trace_cfg(front, dev), recs, front, 'pitC-%s-%s' % (ctx.prop, front), devs=devs, report_devs=report_devs)
+    return recs
+
+
+def stage_c_long(ctx, front, n, devs=(), report_devs=True, max_entries=48, n_events=420, **kw):
+    """Beyond the small scope: a few LONG histories on one application object - dozens of Interests, many of them pending
+    together on a handful of names (several entries per table node), lifetimes from one tick to 70 s (InterestLifetime values
+    that take one, two and four octets), many cancellations - judged by NdnPitTrace like the short ones."""
+    recs = []
+    for i in range(n):
+        w = dict(Express=12, RecvData=4, ValFinish=5, Time=3, Cancel=0.6, Shutdown=0.01, Connect=3, RecvNack=0.8, RecvJunk=0.3, Await=3)
+        w.update(kw.get('weights') or {})
+        NAME_BIAS[0] = 0.55 if i % 2 == 0 else 0.0
+        try:
+            rec = random_schedule(ctx.rng, front, n_events, weights=w, max_entries=max_entries, drain=3 * max_entries,
+                                  lives=[2, 3, 5, 8, 20, 26, 30, 660, 7000, 7000, pitkit.DEFAULT_LIFE],
+                                  **{k: v for k, v in kw.items() if k != 'weights'})
+        finally:
+            NAME_BIAS[0] = 0.0
+        recs.append(rec)
+        ctx.nt('Clong' + front + str(i))
+    ctx.traces += len(recs)
+    ctx.evaluations += len(recs)
+    judge.judge(ctx, 'NdnPitTrace', lambda dev: trace_cfg(front, dev, max_entries=max_entries + 2), recs, front,
+                'pitL-%s-%s' % (ctx.prop, front), devs=devs, report_devs=report_devs)
     return recs
